@@ -279,7 +279,7 @@ DEFAULT_OPTS = dict(
     n_comps=(2, 5), max_rank=2, max_extent=3, units=True, chains=True, max_deg=2,
     scaling=False, safe_indices=False, cycles=False, auto_ivc=True, shuffle_order=False,
     implicit=False, array_scaling=False, resp_chain=False, prefix_names=False, dyn_sibling=False,
-    auto_ivc_p=0.15,
+    auto_ivc_p=0.15, solver_options_api=False,
 )
 
 
@@ -406,6 +406,9 @@ def gen_md(rng, **kw):
                         od['ref'] = rat(unrat(od['ref0']) + 1)
                     else:
                         od['ref0'], od['ref'] = rat(F(0)), rat(F(1))
+            if o['scaling'] and o.get('solver_options_api') and 'ref' in od and rng.random() < 0.5:
+                # the scaling is given after the fact through set_output_solver_options
+                od['via_solver_options'] = True
             c['outs'].append(od)
             c['poly'][od['name']] = [rand_poly(rng, in_elems, o['max_deg']) for _ in range(size)]
             outs.append((ci, od))
@@ -811,7 +814,7 @@ def make_polycomp_class():
             for od in c['outs']:
                 kw = {}
                 for k in ('ref', 'ref0', 'res_ref', 'lower', 'upper'):
-                    if od.get(k) is not None:
+                    if od.get(k) is not None and not od.get('via_solver_options'):
                         v = od[k]
                         kw[k] = np.array([float(unrat(x)) for x in v]).reshape(od['shape']) \
                             if isinstance(v, list) else float(unrat(v))
@@ -925,7 +928,7 @@ def make_polycomp_class():
             for od in c['outs']:
                 kw = {}
                 for k in ('ref', 'ref0', 'res_ref', 'lower', 'upper'):
-                    if od.get(k) is not None:
+                    if od.get(k) is not None and not od.get('via_solver_options'):
                         v = od[k]
                         kw[k] = np.array([float(unrat(x)) for x in v]).reshape(od['shape']) \
                             if isinstance(v, list) else float(unrat(v))
@@ -1076,6 +1079,18 @@ def build_problem(md, log=None, cfg=None):
                 comp = cls(cdef=cd, log=log)
         gobj[c['group']].add_subsystem(c['name'], comp)
         cobj[ci] = comp
+    for ci, c in enumerate(md['comps']):
+        for od in c.get('outs', []):
+            if od.get('via_solver_options'):
+                kw = {}
+                for k in ('ref', 'ref0', 'res_ref'):
+                    if od.get(k) is not None:
+                        v = od[k]
+                        kw[k] = np.array([float(unrat(x)) for x in v]).reshape(od['shape']) \
+                            if isinstance(v, list) else float(unrat(v))
+                # called on the component's own group (calling it on an ancestor with a dotted
+                # path crashes in final_setup on the unchanged tree: TypeError in _set_scaling)
+                gobj[c['group']].set_output_solver_options(c['name'] + '.' + od['name'], **kw)
     _apply_solver_cfg(om, model, gobj, cfg)
     # output promotion to the root with unchanged names
     for ci, c in enumerate(md['comps']):
